@@ -6,7 +6,7 @@ import random
 from rtc import geo_ref as G
 from rtc import universe as U
 
-ANCHORS = [(0.0, 0.0), (35.0, 4.0), (-35.0, 120.0), (59.0, -75.0), (-59.0, 10.0), (50.9, 4.7), (-23.5, -46.6)]
+ANCHORS = [(0.0, 0.0), (35.0, 4.0), (-35.0, 120.0), (59.0, -75.0), (-59.0, 10.0), (50.9, 4.7), (-23.5, -46.6), (69.65, 18.95), (-54.8, -68.3)]
 
 
 def _rnd(seed, salt):
@@ -53,6 +53,10 @@ def case_C14(seed):
         viol.append(('C14:point-to-segment-projection', f"projection {pi} is {G.gc_distance(pi, rpi)} m from the reference {rpi}", dict(info, got=(dist, pi, ti), ref=(rd, rpi, rti))))
     elif abs(ti - rti) * L > tol_d + 1e-6 * L:
         viol.append(('C14:point-to-segment-relative-position', f"relative position {ti} vs reference {rti}", dict(info, got=(dist, pi, ti), ref=(rd, rpi, rti))))
+    # --- zero-length segment: the segment is its end point (in degrees), distance is the great-circle distance to it
+    dz, piz, tiz = dl.distance_point_to_segment(p, s1, s1)
+    if not viol and (not close(dz, G.gc_distance(p, s1), 1e-9, 1e-6) or G.gc_distance(piz, s1) > 1e-6 or tiz not in (0, 0.0)):
+        viol.append(('C14:zero-length-segment', f"distance_point_to_segment(p, s1, s1) = {(dz, piz, tiz)}, expected distance {G.gc_distance(p, s1)} at {s1}", info))
     # --- invariance under swapping the end points
     d2, pi2, ti2 = dl.distance_point_to_segment(p, s2, s1)
     if not viol and (not close(dist, d2, 1e-6, tol_d) or G.gc_distance(pi, pi2) > 2 * tol_d or abs(ti - (1 - ti2)) * L > 2 * tol_d + 2e-6 * L):
@@ -64,15 +68,32 @@ def case_C14(seed):
     rss = G.seg_seg_distance(s1, s2, t1, t2)
     scale = max(L, G.gc_distance(s1, t1), G.gc_distance(s1, t2))
     # the routine works in a local planar frame anchored at the first end point: centimetres at street scale
-    tol_ss = 0.12 + 2e-6 * scale + 2.0 * (scale / G.R) * scale
+    # (12 cm + the distortion of that frame: bearings are taken against the local meridian of each anchor, and meridians
+    #  converge by dlon*sin(lat) = (dx/R)*tan(lat), which rotates the second segment by that angle; second order in scale/R)
+    tanl = math.tan(math.radians(min(89.0, max(abs(q[0]) for q in (s1, s2, t1, t2)))))
+    tol_ss = 0.12 + 2e-6 * scale + 2.0 * max(1.0, tanl) * (scale / G.R) * scale
     if not viol and abs(dss - rss) > tol_ss:
         viol.append(('C14:segment-to-segment-distance', f"distance {dss} vs spherical reference {rss} (tolerance {tol_ss})", dict(info, t1=t1, t2=t2)))
     elif not viol and (not (0 <= uf <= 1 and 0 <= ut <= 1) or abs(G.gc_distance(pf, pt) - dss) > tol_ss):
         viol.append(('C14:segment-to-segment-points-do-not-realise-the-distance', f"|pf-pt| = {G.gc_distance(pf, pt)}, reported {dss}, uf {uf}, ut {ut}", dict(info, t1=t1, t2=t2)))
     # --- box contains the disc
     c = s1
-    rad = rnd.choice([1.0, 50.0, 100.0, 2000.0, 10000.0, 50000.0])
+    rad = rnd.choice([1.0, 50.0, 100.0, 2000.0, 10000.0, 25000.0, 50000.0, 100000.0])
     box = dl.box_around_point(c, rad)
+    # directed probes: the four cardinal points and the points of the disc with the extreme longitude (they lie poleward of
+    # the centre's parallel: lat_e = asin(sin lat / cos d), bearing = atan2(+-..)), just inside the rim
+    dang = rad / G.R
+    late = math.degrees(math.asin(max(-1.0, min(1.0, math.sin(math.radians(c[0])) / math.cos(dang))))) if dang < math.pi / 2 else c[0]
+    dlon = math.degrees(math.asin(min(1.0, math.sin(dang) / math.cos(math.radians(c[0])))))
+    probes = [G.destination(c, b, rad * 0.9999999) for b in (0.0, 90.0, 180.0, 270.0)]
+    for sgn in (1.0, -1.0):
+        e = (late, c[1] + sgn * dlon)
+        # pull the extreme point 1e-7 of the radius towards the centre so that it is strictly inside the disc
+        probes.append((c[0] + (e[0] - c[0]) * (1 - 1e-7), c[1] + (e[1] - c[1]) * (1 - 1e-7)))
+    for q in probes:
+        if G.gc_distance(c, q) <= rad and not (box[0] <= q[0] <= box[2] and box[1] <= q[1] <= box[3]):
+            viol.append(('C14:box-does-not-contain-the-disc', f"point {q} at {G.gc_distance(c, q)} <= {rad} m from {c} is outside box {box}", {'c': c, 'radius': rad, 'q': q, 'box': box}))
+            break
     for k in range(72):
         q = G.destination(c, k * 5.0 + rnd.uniform(0, 5), rad * rnd.choice([0.999999, 0.9, 0.5]))
         if not (box[0] <= q[0] <= box[2] and box[1] <= q[1] <= box[3]):
@@ -175,6 +196,16 @@ def case_C15(seed):
     rnd = _rnd(seed, 'C15')
     U.quiet()
     case = U.gen_case(rnd, ne=False, width=0, cutoffs=False, trace_kind=rnd.choice(['walk', 'walk', 'onroad', 'random']))
+    if rnd.random() < 0.25:
+        # a duplicated node (two labels, one location; common in imported road data): the edge between them has length zero
+        gr = case['graph']
+        cand = [k for k, (p, nb) in gr.items() if any(b != k and b in gr for b in nb)]
+        if cand:
+            k = rnd.choice(cand)
+            k2 = (max(gr) + 1) if all(isinstance(x, int) for x in gr) else 'Z'
+            p, nb = gr[k]
+            gr[k2] = (p, [b for b in nb if b != k] + ([k] if rnd.random() < 0.5 else []))
+            gr[k] = (p, [k2])
     lat0, lon0 = rnd.choice([a for a in ANCHORS if abs(a[0]) < 60])
     lon0 = rnd.choice([lon0, 0.0, 120.0, -75.0, 179.0])
     s = rnd.choice([10.0, 50.0, 100.0, 250.0])        # metres per grid unit
@@ -201,8 +232,20 @@ def case_C15(seed):
     a, b = res
     viol = []
     knife = 0
-    # log-probabilities: 1e-3 absolute (a relative 1e-3 on the probability itself) + 2e-3 relative
-    if a['idx'] != b['idx'] or (a['best'] is not None and not close(a['best'], b['best'], 2e-3, 1e-3)):
+    # log-probabilities: 1e-3 absolute (a relative 1e-3 on the probability itself) + 2e-3 relative + first-order propagation
+    # of the distortion of the local projection itself: over a map of extent `span` a distance differs between the sphere and
+    # the equirectangular plane by at most delta = span^2 tan|lat| / (2R) (east-west scale changes by tan(lat)*dlat; the
+    # sagitta of a geodesic against the straight line is a quarter of that).  The score is -sum d_i^2/(2 s_i^2) (+ penalties),
+    # so 2n terms each perturbed by delta change it by at most e*sqrt(4 n |lp|) + n e^2 with e = delta / min noise.
+    pts_xy = [v[0] for v in g_xy.values()] + list(tr_xy)
+    span = math.hypot(max(q[0] for q in pts_xy) - min(q[0] for q in pts_xy), max(q[1] for q in pts_xy) - min(q[1] for q in pts_xy))
+    delta = span * span * max(0.1, math.tan(math.radians(abs(lat0)))) / (2 * G.R)
+    smin = min(v for v in (cfg.get('obs_noise'), cfg.get('dist_noise') or cfg.get('obs_noise')) if v)
+    e_ = delta / smin
+    n_ = len(tr_xy)
+    lp_ = abs(b['best']) if b['best'] is not None else 0.0
+    tol_abs = 1e-3 + e_ * math.sqrt(4 * n_ * lp_) + n_ * e_ * e_
+    if a['idx'] != b['idx'] or (a['best'] is not None and not close(a['best'], b['best'], 2e-3, tol_abs)):
         # knife edge: a discrete penalty decision (ti comparison / projection exactly on an end point) within margin
         if knife_edge_ti(g_xy, tr_xy):
             knife = 1
@@ -213,7 +256,7 @@ def case_C15(seed):
             'knife_edge': knife}
 
 
-def knife_edge_ti(g, tr, tol=1e-6):
+def knife_edge_ti(g, tr, tol=1e-6, along_m=0.15):
     """some observation projects (within tol relative) exactly onto an end point of an edge, or two consecutive observations
     project to (nearly) the same relative position: the strict `ti < prev.ti` penalty test is on a knife edge"""
     from rtc import oracles as O
@@ -228,6 +271,10 @@ def knife_edge_ti(g, tr, tol=1e-6):
                 continue
             raw = ((p[0] - g[a][0][0]) * dx + (p[1] - g[a][0][1]) * dy) / l2
             if abs(raw) < tol or abs(raw - 1.0) < tol:
+                return True
+            # the geodesic along-track distance comes from an acos near 1 and has a resolution of about 0.1 m (see C14): a
+            # projection within 15 cm of an end point can be reported as exactly the end point
+            if along_m and (abs(raw) * math.sqrt(l2) < along_m or abs(raw - 1.0) * math.sqrt(l2) < along_m):
                 return True
             if prev_t is not None and abs(t - prev_t) < tol:
                 return True
